@@ -29,6 +29,7 @@ def run_impl(case):
     from vivarium.core.emitter import Emitter
     from vivarium.core.registry import emitter_registry, Serializer
     from vivarium.library.units import units
+    import numpy as np
     key = f'es-{next(_ids)}'
     rows = []
     CTX[key] = rows
@@ -53,6 +54,8 @@ def run_impl(case):
                 'qc': {'_default': 0.5 * units.um, '_emit': True},
                 'n': {'_default': 7, '_emit': True},
                 'hidden': {'_default': 9, '_emit': False},
+                # an array quantity: every element is written with the unit
+                'qa': {'_default': np.array([1.0, 2.0]) * units.mM, '_emit': True},
             }
             if w:
                 s['c']['_serializer'] = milli
@@ -62,7 +65,8 @@ def run_impl(case):
         def next_update(self, timestep, states):
             if not self.parameters['with_serializers']:
                 return {}
-            return {'v': {'q': 0.5 * units.um, 'u': 1.0 * units.um, 'c': 1, 'qc': 0.25 * units.um, 'n': 1}}
+            return {'v': {'q': 0.5 * units.um, 'u': 1.0 * units.um, 'c': 1, 'qc': 0.25 * units.um, 'n': 1,
+                          'qa': np.array([1.0, 0.5]) * units.mM}}
 
     class RowEmitter(Emitter):
         def emit(self, data):
@@ -89,6 +93,9 @@ def run_impl(case):
         # canonicalise rows for JSON
         obs['rows'] = [{'t': float(r['t']), 'v': {k: (x if not hasattr(x, 'magnitude') else repr(x))
                                                    for k, x in (r['v'] or {}).items()}} for r in rows]
+        for r in obs['rows']:
+            if isinstance(r['v'].get('qa'), (list, tuple)):
+                r['v']['qa'] = [str(x) for x in r['v']['qa']]
     except Exception as e:  # noqa
         obs['raised'] = f'{type(e).__name__}: {str(e)[:200]}'
         obs['rows'] = []
@@ -129,6 +136,12 @@ def oracle(case, impl):
             'qc': ['milli', (0.5 + 0.25 * k) * 1000.0],
             'n': 7 + k,
         }
+        qa = got_qa = r['v'].get('qa')
+        want_qa = [f'!units[{1.0 + 1.0 * k} millimolar]', f'!units[{2.0 + 0.5 * k} millimolar]']
+        if not (isinstance(got_qa, list) and len(got_qa) == 2
+                and all(_same_quantity(g, w) for g, w in zip(got_qa, want_qa))):
+            return [f'row: at {r["t"]} the array quantity qa is emitted as {qa!r}; element by element with its unit '
+                    f'it is {want_qa!r}']
         got = r['v']
         if 'hidden' in got:
             return [f'row: the unflagged variable is in the row at {r["t"]}']
